@@ -35,51 +35,68 @@ def run_p6(chk, P6, repo):
     if f is None:
         raise AnalysisError('lcs._diff not found')
     c, x, y, i, j = f.params[:5]
-    # walk the if/elif chain
-    top = next((s_ for s_ in f.node.body if isinstance(s_, ast.If)), None)
-    if top is None:
-        raise AnalysisError('P6: if-chain of _diff not found')
-    branches = []
-    node = top
-    while True:
-        branches.append((node.test, node.body))
-        if len(node.orelse) == 1 and isinstance(node.orelse[0], ast.If):
-            node = node.orelse[0]
-        else:
-            branches.append((None, node.orelse))
-            break
-    # the comparison of the two matrix cells: first test that subscripts the matrix
-    cmp_idx = next((k for k, (t, _) in enumerate(branches) if t is not None and any(
-        isinstance(n, ast.Subscript) and isinstance(n.value, ast.Subscript) for n in ast.walk(t))), None)
-    if cmp_idx is None or cmp_idx + 1 >= len(branches):
-        raise AnalysisError('P6: comparison of the LCS matrix cells not recognised')
-    test = branches[cmp_idx][0]
-    ops = {}
-    for label, body in (('true', branches[cmp_idx][1]), ('false', branches[cmp_idx + 1][1])):
-        op, val = _yield_op(body)
-        rec = _recursion_args(body, '_diff')
-        ops[label] = (op, val, rec)
-    want_rec = {1: [c, x, y, i, f'{j} - 1'], -1: [c, x, y, f'{i} - 1', j]}
-    want_val = {1: f'{y}[{j}]', -1: f'{x}[{i}]'}
-    for label, (op, val, rec) in ops.items():
-        ok = op in (1, -1) and val == want_val.get(op) and rec == want_rec.get(op)
-        chk.instance(P6, f'_diff branch {label}: yields ({op}, {val}) after recursing with {rec}: consistent {ok}')
-        if not ok:
-            chk.violation(P6, m.rel, '_diff', f'branch {label}: yield ({op}, {val}), recursion {rec}',
-                          'an insertion must consume y[j] (recursion i, j-1) and a deletion x[i] (recursion i-1, j)',
-                          line=f.node.lineno, witness='any update that removes one theta and adds another')
-    # decide which branch is taken for drop-y better / drop-x better / tie.  c[i+1][j] = LCS without y[j],
-    # c[i][j+1] = LCS without x[i]
-    res = {}
-    for name, (a, b) in (('insert_better', (1, 0)), ('delete_better', (0, 1)), ('tie', (1, 1))):
-        env = {c: [[9, b], [a, 9]], i: 0, j: 0}
+    # The decision of _diff is a finite function of (are both indices valid, are the elements equal, how do the two matrix
+    # cells compare): the body is folded over each case (assignments, if / elif with comparisons and boolean operators; anything
+    # else: undecided) and the branch reached is read off.  c[i+1][j] = LCS without y[j], c[i][j+1] = LCS without x[i].
+    from sa import iterspace as IS
+
+    def decide(env):
+        def run(stmts):
+            for s_ in stmts:
+                if isinstance(s_, ast.Expr) and isinstance(s_.value, ast.Constant):
+                    continue
+                if isinstance(s_, ast.Assign) and len(s_.targets) == 1 and isinstance(s_.targets[0], ast.Name):
+                    env[s_.targets[0].id] = IS.ev_x(s_.value, env)
+                elif isinstance(s_, ast.If):
+                    r_ = run(s_.body if IS.ev_x(s_.test, env) else s_.orelse)
+                    if r_ is not None:
+                        return r_
+                elif isinstance(s_, ast.Return):
+                    return ('return', None)
+                elif any(isinstance(n, (ast.Yield, ast.YieldFrom)) for n in ast.walk(s_)):
+                    return ('body', stmts)
+                else:
+                    raise IS.Unknown(type(s_).__name__)
+            return None
         try:
-            taken = 'true' if T.eval_pred(test, env) else 'false'
-        except (T.Undecidable, KeyError, IndexError, TypeError) as e:
-            raise AnalysisError(f'P6: cannot evaluate `{unparse(test)}`: {e}')
-        res[name] = ops[taken][0]
-    chk.instance(P6, f'`{unparse(test)}`: insertion better -> {res["insert_better"]:+d}, deletion better -> '
-                     f'{res["delete_better"]:+d}, tie -> {res["tie"]:+d}')
+            return run(f.node.body) or ('fallthrough', None)
+        except (IS.Unknown, KeyError, IndexError, TypeError) as e:
+            raise AnalysisError(f'P6: the branch decision of _diff cannot be evaluated: {e}')
+
+    def outcome(env):
+        kind, body = decide(dict(env))
+        if kind != 'body':
+            return (None, None, None, None)
+        op, val = _yield_op(body)
+        return (op, val, _recursion_args(body, '_diff'), body)
+    want_rec = {1: [c, x, y, i, f'{j} - 1'], -1: [c, x, y, f'{i} - 1', j], 0: [c, x, y, f'{i} - 1', f'{j} - 1']}
+    want_val = {1: f'{y}[{j}]', -1: f'{x}[{i}]', 0: f'{x}[{i}]'}
+    base = {x: ['a'], y: ['b'], i: 0, j: 0}
+    cases = {'insert_better': dict(base, **{c: [[9, 0], [1, 9]]}), 'delete_better': dict(base, **{c: [[9, 1], [0, 9]]}),
+             'tie': dict(base, **{c: [[9, 1], [1, 9]]}),
+             'x exhausted': dict(base, **{c: [[9, 9], [9, 9]], i: -1}), 'y exhausted': dict(base, **{c: [[9, 9], [9, 9]], j: -1}),
+             'equal elements': {x: ['a'], y: ['a'], i: 0, j: 0, c: [[9, 9], [9, 9]]}}
+    res = {}
+    seen_bodies = []
+    for name, env in cases.items():
+        op, val, rec, body = outcome(env)
+        res[name] = op
+        if body is not None and not any(body is b_ for b_ in seen_bodies):
+            seen_bodies.append(body)
+            ok = op in (1, -1, 0) and val in (want_val.get(op), f'{y}[{j}]' if op == 0 else None) and rec == want_rec.get(op)
+            chk.instance(P6, f'_diff branch reached for "{name}": yields ({op}, {val}) after recursing with {rec}: consistent {ok}')
+            if not ok:
+                chk.violation(P6, m.rel, '_diff', f'branch for {name}: yield ({op}, {val}), recursion {rec}',
+                              'an insertion must consume y[j] (recursion i, j-1) and a deletion x[i] (recursion i-1, j)',
+                              line=f.node.lineno, witness='any update that removes one theta and adds another')
+    test = next((n for n in ast.walk(f.node) if isinstance(n, ast.Compare) and any(
+        isinstance(z, ast.Subscript) and isinstance(z.value, ast.Subscript) for z in ast.walk(n))), f.node)
+
+    def sgn(v):
+        return 'none' if v is None else f'{v:+d}'
+    chk.instance(P6, f'`{unparse(test)[:60]}`: insertion better -> {sgn(res["insert_better"])}, deletion better -> '
+                     f'{sgn(res["delete_better"])}, tie -> {sgn(res["tie"])}; x exhausted -> {sgn(res["x exhausted"])}, '
+                     f'y exhausted -> {sgn(res["y exhausted"])}, equal -> {sgn(res["equal elements"])}')
     if res['insert_better'] != 1 or res['delete_better'] != -1:
         chk.violation(P6, m.rel, '_diff', unparse(test),
                       'the branch with the shorter common subsequence is followed: the edit script is not minimal (kept '
@@ -93,6 +110,12 @@ def run_p6(chk, P6, repo):
                       witness='one update_source() that removes a theta and changes the following one, or '
                               'create_joint_distribution on the trailing etas of a multi-value diagonal $OMEGA: values are '
                               'written into the wrong record')
+    if res['x exhausted'] != 1 or res['y exhausted'] != -1 or res['equal elements'] != 0:
+        chk.violation(P6, m.rel, '_diff', 'boundary / equal branches',
+                      f'with x exhausted the rest of y must be inserted (+1), with y exhausted the rest of x deleted (-1), equal '
+                      f'elements kept (0); found {sgn(res["x exhausted"])}, {sgn(res["y exhausted"])}, '
+                      f'{sgn(res["equal elements"])}', line=f.node.lineno,
+                      witness='adding a parameter at the front / removing the last one')
     # matrix recurrence: two nested loops over the (enumerated) sequences, wherever in the module they live
     rec_ok = False
     where = None
@@ -296,27 +319,116 @@ def run_p10_p11(chk, repo):
     om = repo.module('pharmpy.model.external.nonmem.records.omega_record')
     f = om.classes['OmegaRecord'].methods.get('update')
     n11 = 0
-    for body in [n.body for n in ast.walk(f.node) if isinstance(n, (ast.For, ast.If, ast.FunctionDef))] + \
-                [n.orelse for n in ast.walk(f.node) if isinstance(n, (ast.For, ast.If))]:
-        for i, s_ in enumerate(body):
-            if not isinstance(s_, ast.For):
-                continue
-            lists = {c.func.value.id for c in ast.walk(s_) if isinstance(c, ast.Call) and isinstance(c.func, ast.Attribute)
-                     and c.func.attr == 'append' and isinstance(c.func.value, ast.Name) and c.func.value.id.startswith('new_')}
-            if len(lists) < 2:
-                continue
-            nxt = next((x for x in body[i + 1:] if isinstance(x, ast.If)), None)
-            if nxt is None or 'count' not in unparse(nxt.test) and 'set(' not in unparse(nxt.test) and 'all(' not in unparse(nxt.test):
-                continue
-            n11 += 1
-            used = {x.id for x in ast.walk(nxt.test) if isinstance(x, ast.Name)} & lists
-            ok = used == lists
-            chk.instance(P11, f'OmegaRecord.update: per-member lists {sorted(lists)}; equality test uses {sorted(used)}: {ok}')
-            if not ok:
-                chk.violation(P11, om.rel, f.qualname, f'if {unparse(nxt.test)[:90]}',
-                              f'the repeat is kept as (value)xn although {sorted(lists - used)} may differ between its members',
-                              line=nxt.lineno,
-                              witness="$OMEGA 0.25 (0.16)x3, fix only OMEGA_3_3: the text is unchanged and FIX is lost")
+    # Which attributes of the new parameters (`.init`, `.fix`) flow into the "are all members of the (value)xn repeat equal?"
+    # test: a small flow analysis over the locals of update (lists filled by append or built by comprehensions, tuples tracked
+    # by position), so that it does not matter how the per-member values are collected.
+    ATTRS = ('init', 'fix')
+    fn = f.node
+
+    def flat(c):
+        if isinstance(c, list):
+            out = set()
+            for x in c:
+                out |= flat(x)
+            return out
+        return set(c)
+
+    def bind(tgt, c, env):
+        if isinstance(tgt, ast.Name):
+            env[tgt.id] = c
+        elif isinstance(tgt, (ast.Tuple, ast.List)):
+            for k, t in enumerate(tgt.elts):
+                bind(t, c[k] if isinstance(c, list) and k < len(c) else flat(c), env)
+
+    def attrs_of(e, env, depth):
+        if isinstance(e, ast.Tuple):
+            return [attrs_of(x, env, depth) for x in e.elts]
+        out = set()
+        for x in ast.walk(e):
+            if isinstance(x, ast.Attribute) and x.attr in ATTRS and not (isinstance(x.value, ast.Name) and x.value.id == 'self'):
+                out.add(x.attr)
+            elif isinstance(x, ast.Name) and isinstance(x.ctx, ast.Load):
+                if x.id in env:
+                    out |= flat(env[x.id])
+                elif depth > 0:
+                    out |= flat(carry(x.id, depth - 1))
+        return out
+
+    def comp_carry(v, depth):
+        env = {}
+        for g in v.generators:
+            src = attrs_of(g.iter, env, depth) if not isinstance(g.iter, ast.Name) else carry(g.iter.id, depth - 1)
+            bind(g.target, src, env)
+        return attrs_of(v.elt, env, depth)
+
+    def carry(name, depth=6):
+        if depth <= 0:
+            return set()
+        res = None
+
+        def merge(c):
+            nonlocal res
+            if res is None:
+                res = c
+            elif isinstance(res, list) and isinstance(c, list) and len(res) == len(c):
+                res = [flat(a_) | flat(b_) for a_, b_ in zip(res, c)]
+            else:
+                res = flat(res) | flat(c)
+        for st in ast.walk(fn):
+            if isinstance(st, ast.Assign) and len(st.targets) == 1 and isinstance(st.targets[0], ast.Name) \
+                    and st.targets[0].id == name:
+                v = st.value
+                if isinstance(v, (ast.ListComp, ast.GeneratorExp)):
+                    merge(comp_carry(v, depth))
+                elif isinstance(v, (ast.List, ast.Tuple)) and not v.elts:
+                    continue
+                else:
+                    merge(attrs_of(v, {}, depth - 1))
+            elif isinstance(st, ast.For):
+                # loop targets bound from what the iterable carries
+                if name in {x.id for x in ast.walk(st.target) if isinstance(x, ast.Name)}:
+                    env = {}
+                    it = st.iter
+                    if isinstance(it, ast.Call) and dotted(it.func) == 'enumerate' and it.args \
+                            and isinstance(st.target, ast.Tuple) and len(st.target.elts) == 2:
+                        src = carry(it.args[0].id, depth - 1) if isinstance(it.args[0], ast.Name) else attrs_of(it.args[0], {}, depth - 1)
+                        bind(st.target.elts[1], src, env)
+                    else:
+                        src = carry(it.id, depth - 1) if isinstance(it, ast.Name) else attrs_of(it, {}, depth - 1)
+                        bind(st.target, src, env)
+                    if name in env:
+                        merge(env[name])
+            elif isinstance(st, ast.Call) and isinstance(st.func, ast.Attribute) and st.func.attr in ('append', 'extend') \
+                    and isinstance(st.func.value, ast.Name) and st.func.value.id == name and st.args:
+                merge(attrs_of(st.args[0], {}, depth - 1))
+        return res if res is not None else set()
+    in_loops = {id(x) for L in ast.walk(fn) if isinstance(L, ast.For) for x in ast.walk(L) if isinstance(x, ast.If)}
+    for I in [n for n in ast.walk(fn) if isinstance(n, ast.If)]:
+        t = unparse(I.test)
+        if not ('.count(' in t or 'set(' in t or 'all(' in t) or id(I) not in in_loops:
+            continue            # (the per-item decision sits in the loop over the items of the record)
+        tnames = {x.id for x in ast.walk(I.test) if isinstance(x, ast.Name)}
+        per_member = {nm for nm in tnames if any(
+            (isinstance(st, ast.Call) and isinstance(st.func, ast.Attribute) and st.func.attr == 'append'
+             and isinstance(st.func.value, ast.Name) and st.func.value.id == nm)
+            or (isinstance(st, ast.Assign) and isinstance(st.targets[0], ast.Name) and st.targets[0].id == nm
+                and isinstance(st.value, (ast.ListComp, ast.GeneratorExp))) for st in ast.walk(fn))}
+        if not per_member:
+            continue
+        got = set()
+        for nm in tnames:
+            got |= flat(carry(nm))
+        if not got:
+            continue
+        n11 += 1
+        ok = set(ATTRS) <= got
+        chk.instance(P11, f'OmegaRecord.update: `if {t[:70]}` compares {sorted(got)} of the members (per-member collections '
+                          f'{sorted(per_member)}): {ok}')
+        if not ok:
+            chk.violation(P11, om.rel, f.qualname, f'if {t[:90]}',
+                          f'the repeat is kept as (value)xn although {sorted(set(ATTRS) - got)} may differ between its members',
+                          line=I.lineno,
+                          witness="$OMEGA 0.25 (0.16)x3, fix only OMEGA_3_3: the text is unchanged and FIX is lost")
     if n11 == 0:
         raise AnalysisError('P11: per-member collection followed by an equality test not found in OmegaRecord.update')
 
